@@ -177,6 +177,33 @@ def euler_vars(ctx, rng, idx):
             ctx.true("mach>=0", np.all(got >= 0), "vars/euler2d/mach/negative", None, cls="vars:" + kind)
         err = np.abs(got - val) / scale / (cond if conditioned else 1.0)
         ctx.close("vars:" + name, np.max(err), TOL, "vars/%s/%s/not-its-definition" % (kind, name), {"worst index": int(np.argmax(np.max(np.atleast_2d(err), axis=0)))}, cls="vars:" + kind)
+    # history on the SAME field object: its post-processing helpers (average, stats) and a caller who works in place on the arrays it
+    # was handed must leave the field -- hence every named variable evaluated afterwards -- what it was
+    data0 = [np.array(x, copy=True) for x in f.data]
+    order_ = [names[i] for i in rng.permutation(len(names))]
+    for name in order_[:6]:
+        if name not in defs:
+            continue
+        try:
+            av = f.average(name); st = f.stats(name)
+        except (ValueError, TypeError):
+            continue          # vector-valued variable: no scalar average (loud)
+    for name in order_[:6]:
+        arr = f.phydata(name)
+        if isinstance(arr, np.ndarray) and arr.flags.writeable and arr.dtype.kind == "f":
+            arr -= 1.0; arr *= 0.5          # the caller's own arithmetic on the array it got
+    same = all(np.array_equal(np.asarray(a_), np.asarray(b_), equal_nan=True) for a_, b_ in zip(f.data, data0))
+    ctx.true("field-untouched", same, "vars/%s/field-data-changed-by-post-processing-or-by-work-on-returned-arrays" % kind, {"variables used": order_[:6]}, cls="vars:" + kind)
+    if not same:
+        bad = []
+        for name in names:
+            if name in defs and np.shape(defs[name][0]) == np.shape(f.phydata(name)):
+                val, scale, conditioned = defs[name]
+                g_ = np.abs(np.asarray(f.phydata(name), float)) if name == "mach" else np.asarray(f.phydata(name), float)
+                v_ = np.abs(val) if name == "mach" else val
+                if not np.all(np.abs(g_ - v_) / scale / (cond if conditioned else 1.0) <= TOL):
+                    bad.append(name)
+        ctx.true("vars-after-history", not bad, "vars/%s/named-variables-wrong-after-post-processing" % kind, {"wrong": bad}, cls="vars:" + kind)
     ctx.info.setdefault("names_checked", {})
     ctx.info["names_checked"][kind] = sorted(names)
     ctx.nontrivial(kind, gam, rho[:3], p[:3])
